@@ -81,30 +81,30 @@ EEPM0 = slc(EECR,4, 1, "EEPM0")   # EEPROM programming mode: 00=EraseWrite 01:Er
 EEPM1 = slc(EECR,5, 1, "EEPM1")   #                          10=WriteOnly  11:Reserved
 
 vectors = [
-        ext("RESET",8),
-        ext("INT0",8),
-        ext("INT1",8),
-        ext("PCINT0",8),
-        ext("PCINT1",8),
-        ext("PCINT2",8),
-        ext("WDT",8),
-        ext("TIMER2_COMPA",8),
-        ext("TIMER2_COMPB",8),
-        ext("TIMER2_OVF",8),
-        ext("TIMER1_CAPT",8),
-        ext("TIMER1_COMPA",8),
-        ext("TIMER1_COMPB",8),
-        ext("TIMER1_OVF",8),
-        ext("TIMER0_COMPA",8),
-        ext("TIMER0_COMPB",8),
-        ext("TIMER0_OVF",8),
-        ext("SPI_STC",8),
-        ext("USART_RX",8),
-        ext("USART_UDRE",8),
-        ext("USART_TX",8),
-        ext("ADC",8),
-        ext("EE_READY",8),
-        ext("ANALOG_COMP",8),
-        ext("TWI",8),
-        ext("SPM_READY",8),
+        ext("RESET",size=8),
+        ext("INT0",size=8),
+        ext("INT1",size=8),
+        ext("PCINT0",size=8),
+        ext("PCINT1",size=8),
+        ext("PCINT2",size=8),
+        ext("WDT",size=8),
+        ext("TIMER2_COMPA",size=8),
+        ext("TIMER2_COMPB",size=8),
+        ext("TIMER2_OVF",size=8),
+        ext("TIMER1_CAPT",size=8),
+        ext("TIMER1_COMPA",size=8),
+        ext("TIMER1_COMPB",size=8),
+        ext("TIMER1_OVF",size=8),
+        ext("TIMER0_COMPA",size=8),
+        ext("TIMER0_COMPB",size=8),
+        ext("TIMER0_OVF",size=8),
+        ext("SPI_STC",size=8),
+        ext("USART_RX",size=8),
+        ext("USART_UDRE",size=8),
+        ext("USART_TX",size=8),
+        ext("ADC",size=8),
+        ext("EE_READY",size=8),
+        ext("ANALOG_COMP",size=8),
+        ext("TWI",size=8),
+        ext("SPM_READY",size=8),
 ]
